@@ -29,9 +29,9 @@ add('C26', 'model_checking',
     'TLC explores every interleaving of create/close/delete/get/dump by 2 clients over 2 names with up to 2 pending close timers (no crash, unique live names, stream never closed twice, closed pipe eventually gone, Get returns); every reachable state is then reproduced on the real registry: each step is one lock region of the real code, the real 2 s timers are held at a gate and fired where the behaviour says, and error results, Get results and the registry contents are compared after every step. A nil dereference or fatal map error kills the harness process and is attributed to the behaviour that caused it by re-running it alone.',
     'gate hooks at every lock region of lang/pipes/namedpipes.go and after the timer sleep; std pipes only', 'DESIGN §6 C26')
 add('C27', 'model_checking',
-    'TLA+ spec Jobs.tla model-checked by TLC (ID stability as an action property, reuse rule, lookups); state-graph paths replayed on a real lang.NewJobs() table with lookups and listing compared after each step',
-    'All histories of add/terminate/garbage-collect/Get/GetLatest over up to 5 jobs are explored by TLC; each reachable state is reproduced on the real table and the listing (job ID -> process) and every lookup result are compared with the specification after every step.',
-    'sequential object (every operation is one mutex region); processes are bare lang.Process values whose terminated flag the harness sets', 'DESIGN §6 C27')
+    'TLA+ spec Jobs.tla model-checked by TLC (ID stability as an action property, reuse rule, lookups by ID / latest / command line); state-graph paths replayed on a real lang.NewJobs() table with lookups and listing compared after each step; recorded concurrent executions of the table validated by TLC trace spec JobsTrace.tla',
+    'All histories of add/terminate/garbage-collect/Get/GetLatest/GetFromCommandLine over up to 5 jobs are explored by TLC; each reachable state is reproduced on the real table and the listing (job ID -> process) and every lookup result are compared with the specification after every step.',
+    'sequential object (every operation is one mutex region); processes are bare lang.Process values whose terminated flag and command line (a, b, ab) the harness sets', 'DESIGN §6 C27')
 add('C04', 'model_checking',
     'TLA+ spec RunModes.tla: TLC checks the transcribed runModeNormal loop against the declarative chain rule for every program up to the bound and exports the case table; every program is executed by the real interpreter and compared with the table',
     'All programs of <=4 (thorough <=5) commands over exit numbers {0,1,3} and the operators ; newline && || | are enumerated by TLC; operational scheduler model = declarative rule is an invariant; each program is rendered to murex source (top level and function body) and run in-process; commands that ran (stdout order, stderr set) and the exit number must equal the table.',
